@@ -9,6 +9,11 @@
 #include <amgcl/amg.hpp>
 #include <amgcl/coarsening/runtime.hpp>
 #include <amgcl/relaxation/runtime.hpp>
+#include <amgcl/value_type/static_matrix.hpp>
+#include <amgcl/adapter/block_matrix.hpp>
+#include <amgcl/coarsening/smoothed_aggregation.hpp>
+#include <amgcl/relaxation/spai0.hpp>
+#include <amgcl/relaxation/damped_jacobi.hpp>
 #include "harness_main.hpp"
 
 const char *CHECK_ID = "C02";
@@ -19,6 +24,30 @@ typedef amgcl::amg<DBackend, amgcl::runtime::coarsening::wrapper, amgcl::runtime
 static const char *coarsening_names[] = { "ruge_stuben", "aggregation", "smoothed_aggregation", "smoothed_aggr_emin" };
 static const char *relax_names[] = { "gauss_seidel", "ilu0", "iluk", "ilup", "ilut", "damped_jacobi", "spai0", "spai1", "chebyshev" };
 static bool symmetric_smoother(long r) { return r == 0 || r == 1 || r == 2 || r == 3 || r == 5 || r == 6 || r == 8; }
+
+
+// 2x2 block values: a scalar SPD matrix seen through the block adapter (off-diagonal blocks are not individually symmetric),
+// smoothed aggregation with a symmetric point smoother; the same oracles on the extracted 2n x 2n operator
+template <template <class> class Relax>
+static bool block_extract(const gen::Csr &A, const Plan &p, Eigen::MatrixXd &B, Eigen::MatrixXd &B2, size_t &nlevels, Result &res) {
+    typedef amgcl::static_matrix<double,2,2> BV; typedef amgcl::static_matrix<double,2,1> RV; typedef amgcl::backend::builtin<BV> BB;
+    typedef amgcl::amg<BB, amgcl::coarsening::smoothed_aggregation, Relax> BAMG;
+    const long n = A.n, nb = n / 2;
+    typename BAMG::params prm; prm.coarse_enough = (unsigned)std::max<long>(1, p.get("coarse_enough") / 2); prm.npre = prm.npost = (unsigned)p.get("npre"); prm.ncycle = (unsigned)p.get("ncycle"); prm.pre_cycles = (unsigned)p.get("pre_cycles");
+    if (prm.ncycle > 1) prm.max_levels = 4;
+    gen::Csr Ac = A; auto As = to_crs(Ac); amgcl::backend::sort_rows(*As);
+    BAMG amg(amgcl::adapter::block_matrix<BV>(*As), prm);
+    { std::ostringstream os; os << amg; std::string t = os.str(); size_t pos = t.find("Number of levels:"); if (pos != std::string::npos) nlevels = (size_t)atoi(t.c_str() + pos + 17); }
+    sim::rng r((uint64_t)p.get("vseed"), "c02b");
+    std::vector<long> order(n); for (long i = 0; i < n; ++i) order[i] = i; for (long i = n - 1; i > 0; --i) std::swap(order[i], order[r.below(i + 1)]);
+    std::vector<RV> e(nb), x(nb);
+    auto unit = [&](long j) { for (long i = 0; i < nb; ++i) e[i] = amgcl::math::zero<RV>(); e[j / 2](j % 2) = 1; };
+    for (long q = 0; q < n; ++q) { long j = order[q]; unit(j); amg.apply(e, x); for (long i = 0; i < n; ++i) B(i, j) = x[i / 2](i % 2);
+        if (r.chance(0.3)) { for (long i = 0; i < nb; ++i) { e[i](0) = (i % 3) ? 1e200 : std::numeric_limits<double>::quiet_NaN(); e[i](1) = r.unit(); } amg.apply(e, x); res.faults["foreign_nan_apply"]++; } }
+    for (long q = n - 1; q >= 0; --q) { long j = order[q]; unit(j); amg.apply(e, x); for (long i = 0; i < n; ++i) B2(i, j) = x[i / 2](i % 2); }
+    res.counts["block_valued_hierarchies"]++;
+    return true;
+}
 
 Plan generate(uint64_t seed, uint64_t run, bool thorough) {
     sim::rng r(seed, "world", run);
@@ -38,6 +67,7 @@ Plan generate(uint64_t seed, uint64_t run, bool thorough) {
     p.set("direct_coarse", r.chance(0.8) ? 1 : 0, 0);
     p.set("scale_pow", r.range(-3, 4), 0);
     p.set("power_iters", 0, 0);
+    p.set("block", r.chance(0.15) ? 1 : 0, 0);
     static const long nts[] = { 1, 1, 2, 4, 5, 8, 17 };
     p.set("nt", nts[r.below(7)], 1);
     draw_schedule(r, p.sched, (int)p.get("nt"));
@@ -60,16 +90,18 @@ static boost::property_tree::ptree params(const Plan &p) {
 Result execute(const Plan &p) {
     Result res;
     gen::Csr A = gen::make_matrix((int)p.get("family"), p.get("n"), (uint64_t)p.get("mseed"), (int)p.get("contrast"), (int)p.get("aniso"));
+    bool block = p.get("block") != 0 && A.n % 2 == 0 && A.n >= 4;
     const long n = A.n; int nt = (int)p.get("nt");
-    long coarsening = p.get("coarsening"), relax = p.get("relax");
+    long coarsening = block ? 2 : p.get("coarsening"), relax = block ? (p.get("relax") == 5 ? 5 : 6) : p.get("relax");
     long smallest_level = n;
     auto sig = [&](const char *oracle, const char *clause, const std::string &detail) {
-        Violation v; v.oracle = oracle; v.add("component", "amg"); v.add("clause", clause); v.add("coarsening", coarsening_names[coarsening]); v.add("relax", relax_names[relax]);
+        Violation v; v.oracle = oracle; v.add("component", "amg"); v.add("clause", clause); v.add("coarsening", coarsening_names[coarsening]); v.add("relax", relax_names[relax]); v.add("values", block ? "block2x2" : "scalar");
         v.add("smallest_level", smallest_level <= 2 ? "tiny" : "ok"); v.add("over_interp", coarsening == 1 ? (p.get("over_interp_one") ? "1" : "default") : "n/a"); v.add("ncycle", p.get("ncycle")); v.detail = detail; return v; };
     Eigen::MatrixXd B(n, n), B2(n, n); size_t nlevels = 0; bool ok = false; std::string exc;
     std::vector<double> lin_err(2, 0.0); bool scaled_equal = true; long scaled_bad = -1;
     sim::RunStatus st = world(nt, p.sched, [&]() {
         try {
+            if (block) { if (relax == 5) ok = block_extract<amgcl::relaxation::damped_jacobi>(A, p, B, B2, nlevels, res); else ok = block_extract<amgcl::relaxation::spai0>(A, p, B, B2, nlevels, res); return; }
             gen::Csr Ac = A;
             AMG amg(Ac.tie(), params(p));
             { std::ostringstream os; os << amg; std::string t = os.str(); size_t pos = t.find("Number of levels:"); if (pos != std::string::npos) nlevels = (size_t)atoi(t.c_str() + pos + 17);
@@ -150,7 +182,7 @@ Result execute(const Plan &p) {
     if (nlevels >= 2) res.counts["multilevel"]++;
     res.key = sim::hash_combine(gen::digest(A), (uint64_t)(coarsening * 100003 + relax * 1009 + p.get("ncycle") * 101 + p.get("npre") * 11 + p.get("pre_cycles"))); res.key = sim::hash_combine(res.key, (uint64_t)(p.get("coarse_enough") * 7 + p.get("max_levels") + 1000 * nt)); res.key = sim::hash_combine(res.key, (uint64_t)p.get("vseed"));
     js::Value s = js::Value::object();
-    s.set("family", gen::family_name((int)p.get("family"))); s.set("n", n); s.set("coarsening", coarsening_names[coarsening]); s.set("relax", relax_names[relax]); s.set("levels", (long)nlevels);
+    s.set("family", gen::family_name((int)p.get("family"))); s.set("n", n); s.set("coarsening", coarsening_names[coarsening]); s.set("relax", relax_names[relax]); s.set("levels", (long)nlevels); s.set("values", block ? "2x2 blocks through the block adapter" : "scalar");
     s.set("ncycle", p.get("ncycle")); s.set("npre_npost", p.get("npre")); s.set("pre_cycles", p.get("pre_cycles")); s.set("coarse_enough", p.get("coarse_enough")); s.set("nt", nt); s.set("strategy", sim::strategy_name(p.sched.strategy));
     res.sample = s;
     return res;
